@@ -14,7 +14,7 @@ import logging
 
 import kopf
 import vkopf
-from vkopf.driver_api import Ob, split
+from vkopf.driver_api import Ob, split, sample
 from vkopf.loop import ClosedLoop, read_record, read_lhc, progress_keys, Killed
 from vkopf.symloop import Deadlock, Diverged, Livelock, cancel_all_others
 from vkopf.world import base_body, FIN, LHC, PLURAL, rfc7386
@@ -294,11 +294,11 @@ def h_loop(o0: int, o1: int, o2: int, p0: int, p1: int, s0: int, s1: int, s2: in
 def obligations():
     obs = []
     K = [0, 1, 2, 3]
-    for storage in ('smart', 'status', 'annotations'):
-        for lifecycle in ('all_at_once', 'one_by_one', 'asap'):
-            if (storage, lifecycle) in (('smart', 'all_at_once'), ('status', 'one_by_one'), ('annotations', 'asap')):
-                obs += split(Ob('h_step', {'storage': storage, 'lifecycle': lifecycle}, tiers=('thorough',), timeout=1500, path_timeout=200),
-                             ka=K, kb=K, base=[0, 1, 2])
+    # thorough: a fixed-seed sample of the fully pinned stored-state cells per storage/lifecycle pair (the full product of
+    # 3456 cells x 3 pairs at ~1 CPU-minute each is out of reach; the evidence lists the cells that were run)
+    for i, (storage, lifecycle) in enumerate((('smart', 'all_at_once'), ('status', 'one_by_one'), ('annotations', 'asap'))):
+        obs += sample(Ob('h_step', {'storage': storage, 'lifecycle': lifecycle}, tiers=('thorough',), timeout=900, path_timeout=200), 60, seed=20 + i,
+                      ka=K, kb=K, base=[0, 1, 2], listed=[False, True], da=[0, 1, 2], db=[0, 1, 2], ob=[0, 1, 2, 3])
     # quick: a sample of the stored-state cells (the rest is in the thorough tier)
     # (ka, kb, base, listed, da, db, ob): retries and the outcome of the first handler stay symbolic
     for (ka, kb, base, listed, da, db, ob) in ((0, 1, 0, False, 0, 1, 0), (1, 1, 0, False, 1, 2, 1), (1, 2, 0, True, 0, 0, 0),
@@ -323,14 +323,12 @@ def obligations():
                       tiers=('quick',), timeout=600, path_timeout=300))
     S, O = [0, 1, 2, 3, 4], [0, 1, 2, 3]
     obs += split(Ob('h_loop', {'storage': 'smart', 'lifecycle': 'all_at_once', 'handlers': 'one_create', 'n': 2},
-                    tiers=('thorough',), timeout=1800, path_timeout=300), s0=S, o0=O)
-    for storage, lifecycle in (('status', 'one_by_one'), ('annotations', 'asap'), ('smart', 'one_by_one')):
-        obs += split(Ob('h_loop', {'storage': storage, 'lifecycle': lifecycle, 'handlers': 'two_create', 'n': 2},
-                        tiers=('thorough',), timeout=3000, path_timeout=300), s0=S, s1=S, o0=O)
+                    tiers=('thorough',), timeout=1200, path_timeout=300), s0=S, s1=S, o0=O)
+    for i, (storage, lifecycle) in enumerate((('status', 'one_by_one'), ('annotations', 'asap'), ('smart', 'one_by_one'))):
+        obs += sample(Ob('h_loop', {'storage': storage, 'lifecycle': lifecycle, 'handlers': 'two_create', 'n': 2},
+                         tiers=('thorough',), timeout=1500, path_timeout=300), 16, seed=30 + i, s0=S, s1=S, o0=O, o1=O)
     obs += split(Ob('h_loop', {'storage': 'smart', 'lifecycle': 'all_at_once', 'handlers': 'subhandlers', 'n': 1},
-                    tiers=('thorough',), timeout=1800, path_timeout=300), o0=[0, 1, 2, 3, 4])
-    obs += split(Ob('h_loop', {'storage': 'status', 'lifecycle': 'one_by_one', 'handlers': 'subhandlers', 'n': 2},
-                    tiers=('thorough',), timeout=3000, path_timeout=300), s0=S, o0=[0, 1, 2, 3, 4])
-    obs += split(Ob('h_loop', {'storage': 'smart', 'lifecycle': 'all_at_once', 'handlers': 'one_create', 'n': 3},
-                    tiers=('thorough',), timeout=3000, path_timeout=300), s0=S, s1=S, o0=O)
+                    tiers=('thorough',), timeout=1200, path_timeout=300), o0=[0, 1, 2, 3, 4], o1=[0, 2, 4], s0=[0, 2, 3])
+    obs += sample(Ob('h_loop', {'storage': 'status', 'lifecycle': 'one_by_one', 'handlers': 'subhandlers', 'n': 2},
+                     tiers=('thorough',), timeout=1500, path_timeout=300), 20, seed=34, s0=S, s1=S, o0=[0, 1, 2, 3, 4], o1=[0, 2, 4])
     return obs
